@@ -287,6 +287,161 @@ Example block_comment_example :
   [(KComment, [47;42;32;97;32]); (KNewline, [10]); (KWhitespace, [32]); (KComment, [98;32;42;47])].
 Proof. vm_compute. reflexivity. Qed.
 
+(** * 3b. The native block comment matcher *)
+(** A match is never longer than the text, and consumed at least the opener and a closer. *)
+Lemma bc_scan_bounds k : forall s d p n,
+  (length s <= k)%nat -> bc_scan s d p = Some n -> p + 2 <= n /\ n <= p + lenN s.
+Proof.
+  induction k as [|k IH]; intros s d p n Hl H.
+  - destruct s; [discriminate | cbn [length] in Hl; lia].
+  - destruct s as [|b s']; [discriminate|]. cbn [bc_scan] in H.
+    destruct (b =? 0); [discriminate|].
+    destruct s' as [|c s'']; [discriminate|].
+    unfold lenN in *. cbn [length] in *.
+    destruct ((b =? 47) && (c =? 42)).
+    + apply IH in H; [|lia]. lia.
+    + destruct ((b =? 42) && (c =? 47)).
+      * destruct d as [|d].
+        -- injection H as <-. lia.
+        -- apply IH in H; [|lia]. lia.
+      * apply IH in H; [|cbn [length]; lia]. cbn [length] in H. lia.
+Qed.
+
+Theorem block_comment_match_bounds s n :
+  block_comment_match s = Some n -> 4 <= n /\ n <= lenN s.
+Proof.
+  unfold block_comment_match. intros H.
+  destruct s as [|a s]; [discriminate|].
+  destruct (N.eqb_spec a 47) as [->|Ha].
+  2:{ exfalso. destruct a as [|a]; [discriminate|].
+      do 6 (destruct a as [a|a|]; try discriminate). congruence. }
+  destruct s as [|b s]; [discriminate|].
+  destruct (N.eqb_spec b 42) as [->|Hb].
+  2:{ exfalso. destruct b as [|b]; [discriminate|].
+      do 6 (destruct b as [b|b|]; try discriminate). congruence. }
+  apply (bc_scan_bounds (length s)) in H; [|lia].
+  unfold lenN in *. cbn [length]. lia.
+Qed.
+
+(** The matched prefix ends with the closer. *)
+Lemma bc_scan_ends k : forall s d p n,
+  (length s <= k)%nat -> bc_scan s d p = Some n ->
+  exists i, n = p + i + 2 /\ nth_error s (N.to_nat i) = Some 42 /\ nth_error s (N.to_nat (i + 1)) = Some 47.
+Proof.
+  induction k as [|k IH]; intros s d p n Hl H.
+  - destruct s; [discriminate | cbn [length] in Hl; lia].
+  - destruct s as [|b s']; [discriminate|]. cbn [bc_scan] in H.
+    destruct (b =? 0); [discriminate|].
+    destruct s' as [|c s'']; [discriminate|].
+    cbn [length] in Hl.
+    assert (Hshift2 : forall i, nth_error (b :: c :: s'') (N.to_nat (i + 2)) = nth_error s'' (N.to_nat i)).
+    { intros i. replace (N.to_nat (i + 2)) with (S (S (N.to_nat i))) by lia. reflexivity. }
+    assert (Hshift1 : forall i, nth_error (b :: c :: s'') (N.to_nat (i + 1)) = nth_error (c :: s'') (N.to_nat i)).
+    { intros i. replace (N.to_nat (i + 1)) with (S (N.to_nat i)) by lia. reflexivity. }
+    destruct ((b =? 47) && (c =? 42)) eqn:E1.
+    + apply IH in H; [|lia]. destruct H as (i & -> & H1 & H2).
+      exists (i + 2). split; [lia|]. split.
+      * rewrite Hshift2. exact H1.
+      * replace (i + 2 + 1) with (i + 1 + 2) by lia. rewrite Hshift2. exact H2.
+    + destruct ((b =? 42) && (c =? 47)) eqn:E2.
+      * destruct d as [|d].
+        -- injection H as <-. apply andb_true_iff in E2. destruct E2 as [Eb Ec].
+           apply N.eqb_eq in Eb, Ec. subst b c.
+           exists 0. split; [lia|]. split; reflexivity.
+        -- apply IH in H; [|lia]. destruct H as (i & -> & H1 & H2).
+           exists (i + 2). split; [lia|]. split.
+           ++ rewrite Hshift2. exact H1.
+           ++ replace (i + 2 + 1) with (i + 1 + 2) by lia. rewrite Hshift2. exact H2.
+      * apply IH in H; [|cbn [length]; lia]. destruct H as (i & -> & H1 & H2).
+        exists (i + 1). split; [lia|]. split.
+        -- rewrite Hshift1. exact H1.
+        -- replace (i + 1 + 1) with (i + 1 + 1) by lia. rewrite (Hshift1 (i + 1)). exact H2.
+Qed.
+
+(** A clean body is skipped whatever the nesting depth and whatever follows the closer ... *)
+Lemma bc_scan_plain b c s d p :
+  (b =? 0) = false -> (b =? 47) && (c =? 42) = false -> (b =? 42) && (c =? 47) = false ->
+  bc_scan (b :: c :: s) d p = bc_scan (c :: s) d (p + 1).
+Proof. intros H0 H1 H2. cbn [bc_scan]. rewrite H0, H1, H2. reflexivity. Qed.
+
+Lemma bc_scan_clean body : forall rest d p,
+  clean_body body = true ->
+  bc_scan (body ++ 42 :: 47 :: rest) d p = bc_scan (42 :: 47 :: rest) d (p + lenN body).
+Proof.
+  induction body as [|b body IH]; intros rest d p Hc.
+  - cbn [app]. unfold lenN. cbn [length]. f_equal. lia.
+  - cbn [clean_body] in Hc. apply andb_true_iff in Hc. destruct Hc as [Hc Hrest].
+    apply andb_true_iff in Hc. destruct Hc as [Hnul Hpair].
+    apply negb_true_iff in Hnul.
+    destruct body as [|c body'].
+    + (* the last byte of the body: the look-ahead is the closer's star *)
+      apply negb_true_iff in Hpair.
+      cbn [app]. rewrite bc_scan_plain.
+      * f_equal.
+      * exact Hnul.
+      * rewrite Hpair. reflexivity.
+      * apply andb_false_r.
+    + apply andb_true_iff in Hpair. destruct Hpair as [H1 H2].
+      apply negb_true_iff in H1, H2.
+      change ((b :: c :: body') ++ 42 :: 47 :: rest) with (b :: c :: (body' ++ 42 :: 47 :: rest)).
+      rewrite bc_scan_plain by assumption.
+      change (c :: body' ++ 42 :: 47 :: rest) with ((c :: body') ++ 42 :: 47 :: rest).
+      rewrite IH by exact Hrest.
+      f_equal. unfold lenN. cbn [length]. lia.
+Qed.
+
+(** ... so a comment of the perturbation class is matched as exactly itself: the length of the
+    match is the *byte* length of the comment, whatever bytes (ASCII or not) the body holds
+    and whatever text follows. *)
+Theorem block_comment_match_context_free body rest :
+  clean_body body = true ->
+  block_comment_match (comment_of body ++ rest) = Some (lenN (comment_of body)).
+Proof.
+  intros Hc. unfold comment_of, block_comment_match.
+  cbn [app]. rewrite <- app_assoc. cbn [app].
+  rewrite bc_scan_clean by exact Hc. cbn [bc_scan].
+  replace (42 =? 0) with false by reflexivity.
+  replace (42 =? 47) with false by reflexivity.
+  replace (42 =? 42) with true by reflexivity.
+  replace (47 =? 47) with true by reflexivity.
+  rewrite andb_false_r. cbn [andb].
+  f_equal. unfold lenN. cbn [length]. rewrite app_length. cbn [length]. lia.
+Qed.
+
+Lemma firstn_len_app {A} (l r : list A) : firstn (length l) (l ++ r) = l.
+Proof. induction l as [|x l IH]; cbn; [destruct r; reflexivity | f_equal; exact IH]. Qed.
+Lemma skipn_len_app {A} (l r : list A) : skipn (length l) (l ++ r) = r.
+Proof. induction l as [|x l IH]; cbn; [reflexivity | exact IH]. Qed.
+
+(** The whole matcher on a comment of the class followed by anything: the elements are those
+    of the comment alone, all non-code, and the remaining text is exactly what followed. *)
+Theorem block_comment_lex_context_free body rest :
+  clean_body body = true ->
+  block_comment_lex (comment_of body ++ rest) = Some (block_comment_elems (comment_of body), rest) /\
+  Forall (fun e => is_code {| t_kind := fst e; t_raw := snd e |} = false)
+         (block_comment_elems (comment_of body)).
+Proof.
+  intros Hc. split; [|apply block_comment_non_code].
+  unfold block_comment_lex. rewrite block_comment_match_context_free by exact Hc.
+  unfold take, drop, lenN. rewrite Nat2N.id.
+  rewrite firstn_len_app, skipn_len_app. reflexivity.
+Qed.
+
+(* "/* café */ , b": the body holds a two-byte character; the match is 11 bytes (10 characters) *)
+Example block_comment_match_example :
+  clean_body [32;99;97;102;195;169;32] = true /\
+  block_comment_lex (comment_of [32;99;97;102;195;169;32] ++ [32;44;32;98]) =
+    Some ([(KComment, [47;42;32;99;97;102;195;169;32;42;47])], [32;44;32;98]) /\
+  block_comment_match [47;42;32;47;42;32;120;32;42;47;32;42;47;59] = Some 13 /\
+  block_comment_match [47;42;32;120] = None.
+Proof. vm_compute. repeat split; reflexivity. Qed.
+
+(* the trim pattern is Unicode-aware: a line of a comment may start with U+3000 / U+00A0 *)
+Example block_comment_unicode_ws_example :
+  block_comment_elems [47;42;10;227;128;128;194;160;32;120;42;47] =
+  [(KComment, [47;42]); (KNewline, [10]); (KWhitespace, [227;128;128;194;160;32]); (KComment, [120;42;47])].
+Proof. vm_compute. reflexivity. Qed.
+
 (** * 4. From engine non-interference to C11 *)
 Section Invariance.
   Variable E : list token -> tree.          (* lex-free view of the parser: tokens to tree *)
